@@ -248,14 +248,9 @@ static void apply_setup(object* o, const options* opt, namelist* flags) {
     if (s.repr) names_add(flags, "set_quirk_failed", 99);
   }
 #endif
-#if defined(WV_HAVE_zlib)
-  if (opt->have_zdict && !strcmp(o->c->name, "zlib")) {
-    uint8_t* d = xalloc(opt->zdict_len);
-    memcpy(d, opt->zdict, opt->zdict_len);
-    LIB(wuffs_zlib__decoder__add_dictionary((wuffs_zlib__decoder*)o->mem, wuffs_base__make_slice_u8(d, opt->zdict_len)));
-    free(d);
-  }
-#endif
+  // (changed for C07) zlib_dict= is no longer added here: std/zlib resets dict_id_have when it parses the
+  // header, so a dictionary added before the first transform_io call is always "#zlib: incorrect dictionary".
+  // The protocol of test/c/std/zlib.c is followed instead: see run_transformer ("@zlib: dictionary required").
 }
 
 // ---- io_transformer loop
@@ -369,11 +364,18 @@ static void run_transformer(object* o, options* opt, const uint8_t* in, size_t i
       work_resize(&wb, (size_t)n, &opt->prefill);
       continue;
     }
-    // (added for C07) zlib with a preset dictionary already supplied through zlib_dict=: the decoder still
-    // reports the note "@zlib: dictionary required" once, after the header; the documented protocol is to
-    // (add the dictionary and) call transform_io again.
-    if (opt->have_zdict && !zdict_retried && st.repr && !strcmp(st.repr, "@zlib: dictionary required")) {
+    // (added for C07) zlib with a preset dictionary (zlib_dict=): the decoder reports the note
+    // "@zlib: dictionary required" after the header; as in test/c/std/zlib.c the dictionary is added then
+    // (add_dictionary) and transform_io is called again.
+    if (opt->have_zdict && !zdict_retried && st.repr && !strcmp(st.repr, "@zlib: dictionary required") &&
+        !strcmp(o->c->name, "zlib")) {
       zdict_retried = true;
+#if defined(WV_HAVE_zlib)
+      uint8_t* d = xalloc(opt->zdict_len);
+      memcpy(d, opt->zdict, opt->zdict_len);
+      LIB(wuffs_zlib__decoder__add_dictionary((wuffs_zlib__decoder*)o->mem, wuffs_base__make_slice_u8(d, opt->zdict_len)));
+      free(d);
+#endif
       continue;
     }
     r->status = st.repr;
